@@ -225,9 +225,19 @@ def rule_operator_order(rep: Report, repo: Repo):
     rep.ok(RULE, f"{CLS}.as_expr term denotation", f"creation operators {C['ltr']}ending left-to-right, coefficient, "
            f"annihilation operators {A['ltr']}ending left-to-right", loc(f))
     m = repo.find(f"{CLS}::__mul__", RULE)
+    if not any(isinstance(c, ast.Call) and isinstance(c.func, ast.Attribute) and c.func.attr == "_multiply_op" for c in ast.walk(m)):
+        # the phases may have been moved into an extracted helper: look at __mul__ with such helpers seen through
+        m = repo.find_expanded(f"{CLS}::__mul__", RULE)
     outer = [n for n in own_nodes(m) if isinstance(n, ast.For) and "args[1]" in norm(n.iter)]
     if len(outer) != 1:
         raise AnalysisError(RULE, "__mul__: loop over the right operand's terms not found")
+    # the running product: the name that is rebound to its own `_multiply_op` / `_multiply_expr`
+    accs = {norm(c.func.value) for c in ast.walk(outer[0]) if isinstance(c, ast.Call) and isinstance(c.func, ast.Attribute)
+            and c.func.attr in ("_multiply_op", "_multiply_expr") and isinstance(getattr(c, "_parent", None), ast.Assign)
+            and norm(c._parent.targets[0]) == norm(c.func.value)}
+    if len(accs) != 1:
+        raise AnalysisError(RULE, f"__mul__: the running product of one term is not one local rebound to its own _multiply_op / _multiply_expr ({sorted(accs)})")
+    ACC = accs.pop()
     phases = []
     for s in outer[0].body:
         if isinstance(s, ast.For):
@@ -246,7 +256,7 @@ def rule_operator_order(rep: Report, repo: Repo):
                         and norm(base.args[0]) == f"len({norm(s.body[0].value.value)})"):
                     d = None
             calls = [c for c in ast.walk(s) if isinstance(c, ast.Call) and isinstance(c.func, ast.Attribute) and c.func.attr == "_multiply_op"]
-            ok_call = len(calls) == 1 and [norm(a) for a in calls[0].args] == names and norm(calls[0].func.value) == "partial"
+            ok_call = len(calls) == 1 and [norm(a) for a in calls[0].args] == names and norm(calls[0].func.value) == ACC
             if kind is None or d is None or not ok_call:
                 raise AnalysisError(RULE, f"__mul__: operator loop at line {s.lineno} not understood")
             phases.append((kind, d, s))
@@ -333,7 +343,7 @@ def _count_descr(e: ast.AST):
 def rule_fermion_crossing(rep: Report, repo: Repo, orders=None):
     if orders is None:
         _f, orders = term_orders_as_expr(repo)
-    f = repo.find(f"{CLS}::_multiply_op", RULE)
+    f = repo.find_expanded(f"{CLS}::_multiply_op", RULE)  # helpers extracted from it are seen through
     loc = lambda n: repo.loc(MOD, n)
     from .resolve import env_at, resolved, rtext, run_block
     blk = [n for n in own_nodes(f) if isinstance(n, ast.If)
@@ -559,7 +569,7 @@ def _family(v, nname):
 
 
 def rule_shift_table(rep: Report, repo: Repo):
-    f = repo.find(f"{CLS}::_multiply_op", RULE)
+    f = repo.find_expanded(f"{CLS}::_multiply_op", RULE)  # helpers extracted from it are seen through
     loc = lambda n: repo.loc(MOD, n)
     nn = [n for n in own_nodes(f) if isinstance(n, ast.Assign) and norm(n.targets[0]) == "n_operator"]
     if len(nn) != 1:
@@ -608,7 +618,7 @@ def rule_shift_table(rep: Report, repo: Repo):
         else:
             rep.fail(RULE, f"{CLS}._multiply_op [{tag}] applies {got_txt}", f"required {want_txt}   [{law}]", loc(loop))
     # _multiply_expr replacement table
-    g = repo.find(f"{CLS}::_multiply_expr", RULE)
+    g = repo.find_expanded(f"{CLS}::_multiply_expr", RULE)
     # the per-term replacement table, normalised to one dict comprehension over (i, power) and evaluated per case
     from .e7b import _pick_ifexp
     from .paths import eval_bool
@@ -704,9 +714,18 @@ def rule_linear_structure(rep: Report, repo: Repo):
         raise AnalysisError(RULE, f"_eval_adjoint: term form `{norm(e)[:60]}` not understood")
     rep.check(ok, RULE, f"{CLS}._eval_adjoint negates every power and takes the adjoint of every coefficient", norm(e)[:100], loc(f))
     f = repo.find(f"{CLS}::__neg__", RULE)
-    comp = [n for n in ast.walk(f) if isinstance(n, (ast.GeneratorExp, ast.ListComp))]
-    ok = bool(comp) and norm(comp[0].elt) in ("(powers, -coeff)",)
-    rep.check(ok, RULE, f"{CLS}.__neg__ negates every coefficient and keeps the powers", "", loc(f))
+    comp = [n for n in ast.walk(f) if isinstance(n, (ast.GeneratorExp, ast.ListComp, ast.DictComp)) and "self.args[1]" in norm(n.generators[0].iter)]
+    if len(comp) != 1 or not isinstance(comp[0].generators[0].target, ast.Tuple) or len(comp[0].generators[0].target.elts) != 2:
+        raise AnalysisError(RULE, "__neg__: map over the terms (powers, coeff) of self not found")
+    pw, cf = (norm(x) for x in comp[0].generators[0].target.elts)
+    elt = comp[0].elt if not isinstance(comp[0], ast.DictComp) else ast.Tuple(elts=[comp[0].key, comp[0].value], ctx=ast.Load())
+    while isinstance(elt, ast.Call) and call_name(elt) in ("Tuple", "tuple", "sympy.Tuple") and len(elt.args) in (1, 2):
+        # Tuple(powers, -coeff) / tuple((powers, -coeff)): the same pair in another container
+        elt = ast.Tuple(elts=list(elt.args), ctx=ast.Load()) if len(elt.args) == 2 else elt.args[0]
+    if not (isinstance(elt, ast.Tuple) and len(elt.elts) == 2):
+        raise AnalysisError(RULE, f"__neg__: term form `{norm(comp[0].elt)[:60]}` not understood")
+    ok = norm(elt.elts[0]) == pw and norm(elt.elts[1]) in (f"-{cf}", f"-1 * {cf}", f"{cf} * -1", f"-One * {cf}", f"{cf}.__neg__()")
+    rep.check(ok, RULE, f"{CLS}.__neg__ negates every coefficient and keeps the powers", norm(elt)[:80], loc(f))
     f = repo.find(f"{CLS}::__sub__", RULE)
     rets = [n for n in own_nodes(f) if isinstance(n, ast.Return) and norm(n.value) != "NotImplemented"]
     rep.check(len(rets) == 1 and norm(rets[0].value) in ("self + -other", "self + (-other)"), RULE, f"{CLS}.__sub__ is self + (-other)", "", loc(f))
@@ -768,7 +787,7 @@ def rule_linear_structure(rep: Report, repo: Repo):
     rep.check(len(comb) == 1 and len(acc) == 1, RULE, f"{CLS}.__mul__ distributes over the right operand's terms on a common operator list", "", loc(m))
     # fermion / spin coefficient rules of _multiply_op, per (annihilation | creation) x (slot occupied | empty), on resolved paths
     from .sem import canon as _canon10, outcomes as _outcomes10
-    f = repo.find(f"{CLS}::_multiply_op", RULE)
+    f = repo.find_expanded(f"{CLS}::_multiply_op", RULE)  # helpers extracted from it are seen through
     sel = [n for n in own_nodes(f) if isinstance(n, ast.If) and any(isinstance(x, ast.Attribute) and x.attr == "xreplace" for x in ast.walk(n))
            and norm(_canon10(n.test)) in ("op_power is One", "op_power == One", "op_power == 1", "op_power is not One", "op_power != One", "op_power != 1",
                                         "op_power is -One", "op_power == -One", "op_power == -1")]
